@@ -13,6 +13,8 @@ def snap(x):
         return ("dict", tuple((k, snap(v)) for k, v in x.items()))
     if isinstance(x, (list, tuple)):
         return ("seq", tuple(snap(v) for v in x))
+    if isinstance(x, (set, frozenset)):
+        return ("set", tuple(sorted(repr(v) for v in x)))
     return ("v", repr(x))
 
 def canon(x):
@@ -187,6 +189,32 @@ def _(case):
     G = {int(k): [int(v) for v in a] for k, a in case["BG"]}
     return [G, list(case["BX"]), list(case["BY"])], lambda a: maximum_cardinality_matching_bipartite(a[0], a[1], a[2])
 
+@entry("convert_bipartite_graph_to_flow_network", False)
+def _(case):
+    from socialchoicekit.flow import convert_bipartite_graph_to_flow_network
+    # every other case: only vertices with an outgoing edge are keys of the adjacency dictionary (the function reads it with a default)
+    G = {int(k): [int(v) for v in a] for k, a in case["BG"] if (a and int(k) != case["BX"][-1]) or case["seed"] % 2 == 0}      # (the last left vertex is isolated in the sparse variant)
+    return [G, list(case["BX"]), list(case["BY"])], lambda a: convert_bipartite_graph_to_flow_network(a[0], a[1], a[2])
+
+@entry("reachable_vertices", False)
+def _(case):
+    from socialchoicekit.flow import reachable_vertices
+    G = {int(k): [(int(v), int(c)) for v, c in a] for k, a in case["G"]}
+    return [G], lambda a: sorted(reachable_vertices(a[0], case["s"]))
+
+@entry("capacity_across_cut", False)
+def _(case):
+    from socialchoicekit.flow import capacity_across_cut
+    G = {int(k): [(int(v), int(c)) for v, c in a] for k, a in case["G"]}
+    cut = set(u for u, _ in case["G"] if u % 2 == 0) | {case["s"]}
+    return [G, cut], lambda a: capacity_across_cut(a[0], a[1])
+
+@entry("flow_across_network", False)
+def _(case):
+    from socialchoicekit.flow import flow_across_network
+    fl = {(int(u), int(v)): int(c) for u, a in case["G"] for v, c in a if v != case["s"]}
+    return [fl], lambda a: flow_across_network(a[0], case["s"])
+
 def _elic(rule):
     def f(case):
         from socialchoicekit.profile_utils import StrictCompleteProfile
@@ -245,7 +273,7 @@ def _(case):
     return [V], lambda a: PU.incomplete_valuation_profile_to_complete_valuation_profile(PU.ValuationProfile.of(a[0]))
 
 class C20(Prop):
-    translators = ['posgraph']   # regenerated from the source on every run (harness/translate.py)
+    translators = ['posgraph', 'flow', 'bip']   # regenerated from the source on every run (harness/translate.py)
     pid = "C20"
     sources = ["socialchoicekit/bistochastic.py", "socialchoicekit/randomized_allocation.py", "socialchoicekit/deterministic_matching.py", "socialchoicekit/profile_utils.py",
                "socialchoicekit/elicitation_allocation.py", "socialchoicekit/flow.py"]
